@@ -147,9 +147,18 @@ fn echo() -> tower::util::BoxCloneService<Request<Bytes>, Response<Bytes>, std::
     }))
 }
 fn network(key: u8, limit: Option<usize>) -> anemo::Network {
+    network_with(key, limit, 3000, false)
+}
+/// `stalling`: the node grants its peers no unidirectional stream, so a listener can never deliver its acknowledgement to it
+fn network_with(key: u8, limit: Option<usize>, connect_timeout_ms: u64, stalling: bool) -> anemo::Network {
     let mut c = Config::default();
     c.max_concurrent_connections = limit;
-    c.connect_timeout_ms = Some(3000);
+    c.connect_timeout_ms = Some(connect_timeout_ms);
+    if stalling {
+        let mut quic = anemo::QuicConfig::default();
+        quic.max_concurrent_uni_streams = Some(0);
+        c.quic = Some(quic);
+    }
     anemo::Network::bind("127.0.0.1:0").server_name("verif").private_key([key; 32]).config(c).start(echo()).expect("network")
 }
 /// C10 on real networks: node 0 has the limit; each step either lets a fresh peer dial node 0 ("in", optionally after giving it
@@ -157,17 +166,19 @@ fn network(key: u8, limit: Option<usize>) -> anemo::Network {
 async fn admission(a: &Value) -> Value {
     use anemo::types::{PeerAffinity, PeerInfo};
     let limit = a.get("limit").and_then(|x| x.as_u64()).map(|x| x as usize);
-    let subject = network(1, limit);
+    let cto = a.get("connect_timeout_ms").and_then(|x| x.as_u64()).unwrap_or(3000);
+    let subject = network_with(1, limit, cto, false);
     let mut peers = Vec::new();
     let mut out = Vec::new();
     for (i, step) in a["steps"].as_array().unwrap().iter().enumerate() {
-        let peer = network(10 + i as u8, None);
+        let stalled = step["dir"] == "in_stalled";
+        let peer = network_with(10 + i as u8, None, 3000, stalled);
         if let Some(aff) = step.get("affinity").and_then(|x| x.as_str()) {
             let affinity = match aff { "high" => PeerAffinity::High, "allowed" => PeerAffinity::Allowed, _ => PeerAffinity::Never };
             subject.known_peers().insert(PeerInfo { peer_id: peer.peer_id(), affinity, address: vec![] });
         }
         let before = subject.peers().len();
-        let res = if step["dir"] == "in" {
+        let res = if step["dir"] == "in" || stalled {
             peer.connect_with_peer_id(subject.local_addr(), subject.peer_id()).await.map(|_| ())
         } else {
             subject.connect_with_peer_id(peer.local_addr(), peer.peer_id()).await.map(|_| ())
@@ -180,6 +191,7 @@ async fn admission(a: &Value) -> Value {
             tokio::time::sleep(Duration::from_millis(10)).await;
         }
         let rpc_ok = if listed { subject.rpc(peer.peer_id(), Request::new(Bytes::from_static(b"x"))).await.is_ok() } else { false };
+        if stalled { tokio::time::sleep(Duration::from_millis(cto + 200)).await; }   // let the listener's own timeout expire too
         out.push(json!({"established_before": before, "connect_ok": res.is_ok(), "listed": listed, "rpc_ok": rpc_ok}));
         peers.push(peer);
     }
